@@ -1,4 +1,5 @@
 import H2T.Props.C02
+import H2T.Lemmas.TagFam
 import H2T.Lemmas.ConserveTree
 import H2T.Props.C07
 
@@ -96,5 +97,60 @@ theorem custom_list_is_its_items (f : DecoFam) (cfg : Cfg) (w w' : Nat) (kids : 
     renderTree cfg (Deco.ofFam f) w (.box {} .ul kids) =
       itemLines cfg (Deco.ofFam f) w' (fun _ => (Deco.ofFam f).ulPrefix) (List.replicate (dispW (Deco.ofFam f).ulPrefix) spaceCh) 0 kids :=
   C07.ul_is_its_items cfg (Deco.ofFam f) w w' kids hfn hw hw' hw'0
+
+/-! ## the decorator's strings are part of the conserved text -/
+
+/-- **a custom decorator's output is its affixes around the document's text, and nothing else**: for every decorator of the
+    family whose block prefixes avoid an alphabet `P` (free of digits and `-`), every render tree without tables, every
+    width and configuration (footnotes off, no Unicode strikeout): the `P`-characters of the rendered lines are exactly
+    those of `nodeRaw` — the tree's texts with the decorator's start and end strings around each decorated element, image
+    texts wrapped in the image affixes — each once, in document order -/
+theorem custom_affixes_and_text_conserved (P : Ch → Bool) (f : DecoFam) (hP : ∀ c, P c = true → richAlpha c = true)
+    (h1 : avoids P f.hUnit = true) (h2 : avoids P f.hTail = true) (h3 : avoids P f.quote = true) (h4 : avoids P f.ul = true)
+    (h5 : avoids P f.olTail = true) (cfg : Cfg) (w : Nat) (tree : RNode) (ls : List RLine) (hfn : cfg.footnotes = false)
+    (hu : cfg.unicodeStrike = false) (ht : noTable tree = true) (h : renderTree cfg (Deco.ofFam f) w tree = .ok ls) :
+    (ls.flatMap rink).filter P = (nodeRaw (Deco.ofFam f) tree).filter P :=
+  renderTree_chars_pre_raw P cfg (Deco.ofFam f) w tree ls hfn hu (fam_avoids P f hP h1 h2 h3 h4 h5) ht h
+
+/-- with tables: nothing but the document's text and the decorator's strings, no character more often than there -/
+theorem custom_nothing_invented (P : Ch → Bool) (f : DecoFam) (hP : ∀ c, P c = true → richAlpha c = true)
+    (h1 : avoids P f.hUnit = true) (h2 : avoids P f.hTail = true) (h3 : avoids P f.quote = true) (h4 : avoids P f.ul = true)
+    (h5 : avoids P f.olTail = true) (c : Ch) (hcb : isBox c = false) (hcP : P c = true) (cfg : Cfg) (w : Nat) (tree : RNode)
+    (ls : List RLine) (hfn : cfg.footnotes = false) (hu : cfg.unicodeStrike = false) (h : renderTree cfg (Deco.ofFam f) w tree = .ok ls) :
+    (ls.flatMap rink).count c ≤ (nodeRaw (Deco.ofFam f) tree).count c :=
+  renderTree_chars_le_raw P c hcb hcP cfg (Deco.ofFam f) w tree ls hfn hu (fam_avoids P f hP h1 h2 h3 h4 h5) h
+
+/-- what `nodeRaw` says about an emphasised element under a family decorator: start string, children, end string -/
+theorem custom_em_spec (f : DecoFam) (sty : Style) (kids : List RNode) :
+    nodeRaw (Deco.ofFam f) (.box sty .em kids) = keep f.emS ++ (listRaw (Deco.ofFam f) kids ++ keep f.emE) := by
+  simp [nodeRaw, Deco.ofFam]
+
+/-- non-vacuity: bullets `• ` (U+2022), quote `» `, emphasis `⟦ ⟧`: a wrapped list item with emphasis at width 8; the
+    alphabet is the ASCII letters -/
+def exFam : DecoFam where
+  hUnit := [mkCh 0x25b6]
+  hTail := [spaceCh]
+  quote := [mkCh 0xbb, spaceCh]
+  ul := [mkCh 0x2022, spaceCh]
+  olTail := [mkCh 41, spaceCh]
+  linkS := []
+  linkE := []
+  emS := [mkCh 0x27e6]
+  emE := [mkCh 0x27e7]
+  strongS := []
+  strongE := []
+  strikeS := []
+  strikeE := []
+  codeS := []
+  codeE := []
+  imgS := []
+  imgE := []
+example :
+    let f : DecoFam := exFam
+    let P : Ch → Bool := fun c => (97 ≤ c.cp && c.cp ≤ 122) || c.cp = 0x27e6 || c.cp = 0x27e7
+    let tree : RNode := .box {} .ul [.box {} .li [.text {} (strCh "ab cd "), .box {} .em [.text {} (strCh "ef gh")], .text {} (strCh " ij")]]
+    avoids P f.hUnit = true ∧ avoids P f.quote = true ∧ avoids P f.ul = true ∧ avoids P f.olTail = true ∧ noTable tree = true ∧
+    ((renderTree { footnotes := false } (Deco.ofFam f) 8 tree).toOption.map fun ls => ((ls.flatMap rink).filter P).map (·.cp)) =
+      some [97, 98, 99, 100, 0x27e6, 101, 102, 103, 104, 0x27e7, 105, 106] := by decide +kernel
 
 end H2T.C16
